@@ -129,7 +129,7 @@ type Final struct {
 	FinalList map[string]int   `json:"final_list"`
 	Reopened  []ObjState       `json:"reopened,omitempty"` // DB objects that are open / hold a SQLite handle after every Close returned
 	Objects   int              `json:"objects"`
-	RunMs     int64            `json:"run_ms"`   // how long the operation goroutines ran
+	RunMs     int64            `json:"run_ms"`    // how long the operation goroutines ran
 	RunCalls  int64            `json:"run_calls"` // calls completed when they were told to stop
 	WallMs    int64            `json:"wall_ms"`
 	SlowOps   int              `json:"slow_ops"`
